@@ -23,10 +23,16 @@ EXTENDS Node
 Kinds == {"valid", "badsig", "wrongblock"}
 Signable(h) == h >= 1 /\ h <= Tip.h      \* heights for which the node has a block of its own to certify
 
+\* signer / certifier sets: all of them for small validator sets, a family that still brackets every threshold for large ones
+\* (prefixes, everybody but one, singletons) - 8 and 16 validators make the aggregation bitmap end on a byte boundary
+SignerFamily ==
+  IF NVal <= 5 THEN (SUBSET Validators) \ {{}}
+  ELSE {{v \in Validators : v <= k} : k \in Validators} \cup {Validators \ {v} : v \in Validators} \cup {{v} : v \in Validators}
+
 VerifyTable ==
   {[h |-> h, signers |-> SetToSortSeq(S, <), kind |-> k,
     expect |-> ACOk(V, [h |-> h, kind |-> k, signers |-> S])] :
-      h \in 0..(Tip.h + 1), S \in (SUBSET Validators) \ {{}}, k \in Kinds}
+      h \in 0..(Tip.h + 1), S \in SignerFamily, k \in Kinds}
 
 \* highest height the pool of a certifier set S could certify (informational)
 Certifiable(S) ==
@@ -35,7 +41,7 @@ Certifiable(S) ==
       ok == {h \in (V.cert + 1)..top : WeightOf(S \cap Active(V, h), ParamsAt(V.params, h).w) >= ParamsAt(V.params, h).certT}
   IN IF ok = {} THEN V.cert ELSE CHOOSE h \in ok : \A x \in ok : x <= h
 
-PoolCases == {[certifiers |-> SetToSortSeq(S, <), height |-> Certifiable(S)] : S \in (SUBSET Validators) \ {{}}}
+PoolCases == {[certifiers |-> SetToSortSeq(S, <), height |-> Certifiable(S)] : S \in SignerFamily}
 
 SingleCases ==
   {[v |-> v, h |-> h, ref |-> r, sig |-> s,
